@@ -922,6 +922,54 @@ fn analyse_items(id: &str, text: &str) -> String {
     format!("{{\"id\":{},\"st\":\"ok\",\"strict_same\":{},\"feats\":[{}],\"items\":[{}]}}", bh::json_str(id), jb(whole_strict_same), fl.join(","), out.join(","))
 }
 
+/// boa's own lexer on a text (default goal symbol: a `/` starts a regular expression, so the check only sends texts
+/// without `/`): the token stream in the word vocabulary of the model driver
+fn lex_words(id: &str, text: &str) -> String {
+    use boa_parser::lexer::{Lexer, TokenKind, token::Numeric};
+    let mut interner = Interner::default();
+    let r = bh::guarded(|| {
+        struct Chars(std::vec::IntoIter<char>);
+        impl boa_parser::source::ReadChar for Chars {
+            fn next_char(&mut self) -> std::io::Result<Option<u32>> {
+                Ok(self.0.next().map(|c| c as u32))
+            }
+        }
+        let mut lexer = Lexer::new(Chars(text.chars().collect::<Vec<char>>().into_iter()));
+        let mut out: Vec<String> = Vec::new();
+        loop {
+            match lexer.next(&mut interner) {
+                Ok(Some(tok)) => {
+                    let w = match tok.kind() {
+                        TokenKind::BooleanLiteral((b, _)) => format!("B:{b}"),
+                        TokenKind::NullLiteral(_) => "NULL".to_string(),
+                        TokenKind::IdentifierName((s, _)) => format!("I:{}", interner.resolve_expect(*s)),
+                        TokenKind::Keyword((k, _)) => format!("K:{}", k.as_str().0),
+                        TokenKind::Punctuator(p) => p.to_string(),
+                        TokenKind::NumericLiteral(Numeric::Integer(n)) => format!("N:{n}"),
+                        TokenKind::NumericLiteral(Numeric::Rational(x)) => {
+                            if x.fract() == 0.0 && *x >= 0.0 && *x <= 9007199254740991.0 { format!("N:{}", *x as u64) } else { format!("O:{x}") }
+                        }
+                        TokenKind::NumericLiteral(_) => "O:bigint".to_string(),
+                        TokenKind::StringLiteral((s, _)) => format!("S:{}", c19dump::qs(&interner.resolve_expect(*s).to_string())),
+                        TokenKind::LineTerminator | TokenKind::Comment => continue,
+                        TokenKind::EOF => break,
+                        _ => "O:other".to_string(),
+                    };
+                    out.push(w);
+                }
+                Ok(None) => break,
+                Err(e) => return Err(e.to_string()),
+            }
+        }
+        Ok(out)
+    });
+    match r {
+        Ok(Ok(ws)) => format!("{{\"id\":{},\"st\":\"ok\",\"words\":{}}}", bh::json_str(id), bh::json_str(&ws.join(" "))),
+        Ok(Err(m)) => format!("{{\"id\":{},\"st\":\"err\",\"msg\":{}}}", bh::json_str(id), bh::json_str(&m)),
+        Err(m) => format!("{{\"id\":{},\"st\":\"panic\",\"msg\":{}}}", bh::json_str(id), bh::json_str(&m)),
+    }
+}
+
 fn main() {
     let busy_since = Arc::new(AtomicU64::new(0));
     let cur_id = Arc::new(Mutex::new(String::new()));
@@ -962,9 +1010,11 @@ fn main() {
                 continue;
             }
             let (is_items, rest) = if let Some(r) = line.strip_prefix("rt ") {
-                (false, r)
+                (0, r)
             } else if let Some(r) = line.strip_prefix("it ") {
-                (true, r)
+                (1, r)
+            } else if let Some(r) = line.strip_prefix("lx ") {
+                (2, r)
             } else {
                 continue;
             };
@@ -974,7 +1024,7 @@ fn main() {
                 *g = id.to_string();
             }
             busy_since.store(now_ms().max(1), Ordering::SeqCst);
-            let res = if is_items { analyse_items(id, &text) } else { analyse(id, &text, dump) };
+            let res = match is_items { 1 => analyse_items(id, &text), 2 => lex_words(id, &text), _ => analyse(id, &text, dump) };
             busy_since.store(0, Ordering::SeqCst);
             let out = std::io::stdout();
             let mut out = out.lock();
